@@ -2,3 +2,4 @@
 import MetricsVerif.Model.PromFmt
 import MetricsVerif.Model.Exposition
 import MetricsVerif.Model.PromRender
+import MetricsVerif.Model.Layers
